@@ -68,8 +68,12 @@ def decode(d):
         kind = d.choice(["Q", "C"])
         first = ["Q", p0, c, P] if kind == "Q" else ["C", p0, gen.point(d, gen.small_coord), c, P]
         second = ["Q", list(P), mirror, e] if kind == "Q" else ["C", list(P), mirror, gen.point(d, gen.small_coord), e]
-        gap = d.choice(["out-and-back", "move", "other-degree", "closed-start"])
-        if gap == "out-and-back":
+        gap = d.choice(["out-and-back", "move", "other-degree", "closed-start", "directly-after-other-degree"])
+        if gap == "directly-after-other-degree":
+            # the curve right before is of the other degree and its last control is the one mirrored
+            first = ["C", p0, gen.point(d, gen.small_coord), c, P] if kind == "Q" else ["Q", p0, c, P]
+            middle = []
+        elif gap == "out-and-back":
             middle = [["L", list(P), out], ["L", list(out), list(P)]]
         elif gap == "move":
             middle = [["M", list(P)]]
